@@ -1,6 +1,8 @@
 import Mdsort.Proofs.World
 import Mdsort.Proofs.WorldDryStdin
 import Mdsort.Proofs.WorldStdinExample
+import Mdsort.Proofs.WorldDryWorld
+import Mdsort.Proofs.WorldDryF21
 
 /-!
 # C05 - dry run (-d) and syntax check (-n) never change anything
@@ -141,5 +143,127 @@ example : ∀ q, ((runPlan Plan.none (mainP C05_exDry Proofs.StdinExample.orc0 t
     (by constructor <;> decide +kernel) (fun _ _ => rfl)
 
 example : C05_exDry.syntaxOnly = false ∧ ({ C05_exDry with syntaxOnly := true } : PEnv).syntaxOnly = true := ⟨rfl, rfl⟩
+
+/-! ## world level: what the file system looks like
+
+The theorems above say which CALLS a dry run issues.  These say what the abstract file system (`Model.World`:
+directories with their entries, files with visible and durable content, modification times) looks like after EVERY call
+of the run under EVERY fault plan - the lift through `applyOk` / `runPlan`.  `(runPlan ..).2.2` is the list of worlds
+after each call, `(runPlan ..).2.1` the final world.
+
+`Proofs.World.SameDisk w w'`: `w'.dirs = w.dirs` (the same directories with the same entries: names and file ids),
+`w'.files = w.files` (the same files with the same `data` and `durable`), `w'.mtimes = w.mtimes`, same id counter.
+`Proofs.World.PreExisting w w'`: every directory of `w` has the same entries in `w'`, every file of `w` (id below
+`w.nextFid`) the same `data` and `durable`, the modification times are the same. -/
+
+/-- **`-d`, maildir mode.**  For every configuration, registry, input, every initial world in which no descriptor is a
+stdio stream on a file (a process starts like that) and every fault plan: after every call of the run and at its end the
+file system is literally the initial one - only the descriptor table and the trace have changed. -/
+theorem C05_dry_world_unchanged (env : PEnv) (orc : EvalOracles) (ok : Bool) (conf : List ConfBlock) (files : Files)
+    (input : Bytes) (w : World) (plan : Plan) (hd : env.dryrun = true) (hm : env.stdinMode = false)
+    (hns : Proofs.World.NoStreams w) (w' : World)
+    (hw' : w' = (runPlan plan (mainP env orc ok conf files input) w 0 []).2.1 ∨
+      w' ∈ (runPlan plan (mainP env orc ok conf files input) w 0 []).2.2) :
+    Proofs.World.SameDisk w w' :=
+  Proofs.World.dry_world_unchanged env orc ok conf files input w plan hd hm hns w' hw'
+
+/-- Read entry by entry: every name bound before is bound to the same file, with the same content (visible and durable)
+and the same modification time. -/
+theorem C05_dry_world_entries (w w' : World) (h : Proofs.World.SameDisk w w') (q n : Bytes) (fid : Nat)
+    (hl : w.lookup q n = some fid) :
+    w'.lookup q n = some fid ∧ w'.file fid = w.file fid ∧ w'.mtime fid = w.mtime fid ∧ w'.dir q = w.dir q :=
+  ⟨by rw [h.lookup]; exact hl, h.file fid, h.mtime fid, h.dir q⟩
+
+/-- **`-d -`, stdin mode.**  The initial world must leave room for the spool (`DryStart`: the two paths `mkdtemp` /
+`mkdir` will create name no directory yet, and the empty path names none).  Then for every configuration, input and fault
+plan: after every call of the run and at its end every PRE-EXISTING directory has exactly its initial entries and every
+pre-existing file its initial visible and durable content and modification time - whatever the run creates, writes and
+removes is its own spool.  (Proof: `C05_dry_stdin_plan` + the coherence of trace and world `Proofs.World.DryCoh`.) -/
+theorem C05_dry_stdin_world_unchanged (env : PEnv) (orc : EvalOracles) (ok : Bool) (conf : List ConfBlock) (files : Files)
+    (input : Bytes) (w : World) (plan : Plan) (hd : env.dryrun = true) (hm : env.stdinMode = true)
+    (hs : Proofs.World.DryStart env w) (w' : World)
+    (hw' : w' = (runPlan plan (mainP env orc ok conf files input) w 0 []).2.1 ∨
+      w' ∈ (runPlan plan (mainP env orc ok conf files input) w 0 []).2.2) :
+    Proofs.World.PreExisting w w' :=
+  Proofs.World.dry_stdin_world_unchanged env orc ok conf files input w plan hd hm hs w' hw'
+
+/-- Entry by entry, as above. -/
+theorem C05_dry_stdin_world_entries (w w' : World) (h : Proofs.World.PreExisting w w') (q n : Bytes) (fid : Nat)
+    (hl : w.lookup q n = some fid) (hfid : fid < w.nextFid) :
+    w'.lookup q n = some fid ∧ w'.file fid = w.file fid ∧ w'.mtime fid = w.mtime fid :=
+  ⟨h.lookup hl, h.files fid hfid, h.mtime fid⟩
+
+/-- **... and the spool is gone at the end** (with `C05_dry_stdin_spool_removed`): one `stdin` block, and the plan
+injects nothing from the first call of the cleanup on (the calls of `maildir_close`: `rewinddir`, `readdir`, `unlinkat`,
+`rmdir`, `rmdir`, `closedir` - a failure there leaves the spool behind, F17e): at the end the directories are EXACTLY the
+initial ones, each with its initial entries - `dir q` of the final world equals `dir q` of the initial world for every
+path `q`, so neither the directory `mkdtemp` made nor its `new` exists any more. -/
+theorem C05_dry_stdin_world_restored (env : PEnv) (orc : EvalOracles) (conf : List ConfBlock) (files : Files) (input : Bytes)
+    (expr : Expr) (w : World) (plan : Plan) (hd : env.dryrun = true) (hm : env.stdinMode = true) (hsx : env.syntaxOnly = false)
+    (hc : Proofs.World.stdinExprs conf = [expr]) (hin : Proofs.World.StdinIs w input) (hs : Proofs.World.DryStart env w)
+    (hplan : ∀ j, Proofs.stdinCleanupStart plan env orc expr files input w ≤ j → plan j = none) :
+    ∀ q, (runPlan plan (mainP env orc true conf files input) w 0 []).2.1.dir q = w.dir q :=
+  Proofs.World.dry_stdin_world_restored env orc conf files input expr w plan hd hm hsx hc hin hs hplan
+
+/-! Non-vacuity. -/
+
+/-- Maildir mode: the two-message maildir `/m` of `Proofs.wholeExWorld` with the rule `match all flag "cur"` and `-d`
+(`Proofs.dry_f21DryEnv`, `Proofs.dry_f21Conf`: the run of `C06_F21_witness`, which ends with status 0 and two log lines -
+both messages are parsed and evaluated): the hypotheses hold, so the file system after that run is the initial one; a
+real run of the same configuration moves both messages. -/
+example : Proofs.dry_f21DryEnv.dryrun = true ∧ Proofs.dry_f21DryEnv.stdinMode = false ∧
+    Proofs.World.NoStreams Proofs.wholeExWorld :=
+  ⟨rfl, rfl, Proofs.World.noStreams_of_ok (by decide)⟩
+
+example :
+    (runPlan Plan.none (mainP Proofs.dry_f21DryEnv Proofs.wholeExOrc true Proofs.dry_f21Conf Proofs.wholeExFiles [])
+      Proofs.wholeExWorld 0 []).1.2.log.length = 2 ∧
+    Proofs.World.SameDisk Proofs.wholeExWorld
+      (runPlan Plan.none (mainP Proofs.dry_f21DryEnv Proofs.wholeExOrc true Proofs.dry_f21Conf Proofs.wholeExFiles [])
+        Proofs.wholeExWorld 0 []).2.1 :=
+  ⟨Proofs.dry_f21_witness.2.2.2,
+   C05_dry_world_unchanged _ _ _ _ _ _ _ _ rfl rfl (Proofs.World.noStreams_of_ok (by decide)) _ (.inl rfl)⟩
+
+/-- ... entry by entry: `/m/new/1.h` is still bound to file 0, with its content and time. -/
+example :
+    let w' := (runPlan Plan.none (mainP Proofs.dry_f21DryEnv Proofs.wholeExOrc true Proofs.dry_f21Conf Proofs.wholeExFiles [])
+      Proofs.wholeExWorld 0 []).2.1
+    Proofs.wholeExWorld.lookup Proofs.exNew Proofs.exName = some 0 ∧ w'.lookup Proofs.exNew Proofs.exName = some 0 ∧
+      w'.file 0 = Proofs.wholeExWorld.file 0 :=
+  have h := C05_dry_world_entries _ _ (C05_dry_world_unchanged Proofs.dry_f21DryEnv Proofs.wholeExOrc true Proofs.dry_f21Conf
+    Proofs.wholeExFiles [] Proofs.wholeExWorld Plan.none rfl rfl (Proofs.World.noStreams_of_ok (by decide)) _ (.inl rfl))
+    Proofs.exNew Proofs.exName 0 (by decide)
+  ⟨by decide, h.1, h.2.1⟩
+
+/-- Stdin mode: the example of `C05_exDry`: the world has `/m/inbox/new` (empty) and the file behind standard input. -/
+theorem C05_exDry_start : Proofs.World.DryStart C05_exDry Proofs.StdinExample.w0 :=
+  ⟨by constructor <;> decide +kernel, by decide⟩
+
+example : Proofs.World.PreExisting Proofs.StdinExample.w0
+    (runPlan Plan.none (mainP C05_exDry Proofs.StdinExample.orc0 true Proofs.StdinExample.conf0 [] Proofs.StdinExample.input0)
+      Proofs.StdinExample.w0 0 []).2.1 :=
+  C05_dry_stdin_world_unchanged _ _ _ _ _ _ _ _ rfl rfl C05_exDry_start _ (.inl rfl)
+
+/-- ... entry by entry, for a world in which `/m/inbox/new` already holds a message `x` (file 1): untouched by `-d -`. -/
+def C05_exW1 : World :=
+  { Proofs.StdinExample.w0 with
+    dirs := [(Proofs.StdinExample.inbox ++ [47, 110, 101, 119], [([120], 1)])],
+    files := [(0, ⟨Proofs.StdinExample.input0, Proofs.StdinExample.input0⟩), (1, ⟨[104, 105], [104, 105]⟩)], nextFid := 2 }
+
+example :
+    let w' := (runPlan Plan.none (mainP C05_exDry Proofs.StdinExample.orc0 true Proofs.StdinExample.conf0 [] Proofs.StdinExample.input0)
+      C05_exW1 0 []).2.1
+    C05_exW1.lookup (Proofs.StdinExample.inbox ++ [47, 110, 101, 119]) [120] = some 1 ∧
+      w'.lookup (Proofs.StdinExample.inbox ++ [47, 110, 101, 119]) [120] = some 1 ∧ w'.file 1 = C05_exW1.file 1 :=
+  have h := C05_dry_stdin_world_entries _ _ (C05_dry_stdin_world_unchanged C05_exDry Proofs.StdinExample.orc0 true
+    Proofs.StdinExample.conf0 [] Proofs.StdinExample.input0 C05_exW1 Plan.none rfl rfl
+    ⟨by constructor <;> decide +kernel, by decide⟩ _ (.inl rfl))
+    (Proofs.StdinExample.inbox ++ [47, 110, 101, 119]) [120] 1 (by decide) (by decide)
+  ⟨by decide, h.1, h.2.1⟩
+
+example : ∀ q, (runPlan Plan.none (mainP C05_exDry Proofs.StdinExample.orc0 true Proofs.StdinExample.conf0 []
+    Proofs.StdinExample.input0) Proofs.StdinExample.w0 0 []).2.1.dir q = Proofs.StdinExample.w0.dir q :=
+  C05_dry_stdin_world_restored _ _ _ _ _ _ _ _ rfl rfl rfl Proofs.StdinExample.ex_stdinExprs Proofs.StdinExample.ex_stdinIs
+    C05_exDry_start (fun _ _ => rfl)
 
 end Mdsort.Props
